@@ -83,7 +83,7 @@ def parse_rfc3339_datetime(rfc3339):
     We primarily need this in the Wait state so we can compute timeouts etc.
     """
     rfc3339 = rfc3339.strip()  # Remove any leading/trailing whitespace
-    if rfc3339[-1] == "Z":
+    if rfc3339[-1] in "Zz":
         date = rfc3339[:-1]
         offset = "+00:00"
     else:
@@ -92,8 +92,12 @@ def parse_rfc3339_datetime(rfc3339):
 
     if "." not in date:
         date = date + ".0"
+    else:
+        # %f accepts at most six digits, RFC3339 allows any number of them.
+        date, fraction = date.split(".", 1)
+        date = date + "." + fraction[:6]
     raw_datetime = datetime.strptime(date, "%Y-%m-%dT%H:%M:%S.%f")
-    delta = timedelta(hours=int(offset[-5:-3]), minutes=int(offset[-2]))
+    delta = timedelta(hours=int(offset[-5:-3]), minutes=int(offset[-2:]))
     if offset[0] == "-":
         delta = -delta
     return raw_datetime.replace(tzinfo=timezone(delta))
